@@ -334,6 +334,8 @@ def main():
     elif len(timeouts_inconclusive) > max(2, len(results) // 20):
         print(f"INCONCLUSIVE property={pid}: {len(timeouts_inconclusive)} cases hit the wall-clock guard")
         rc = 2
+    if infra:
+        print(f"note: {len(infra)} infrastructure errors, first: {infra[0][0][:300]}")
     print(f"{pid} {tier} seed={seed}: {len(results)} cases, {len(sigs)} distinct non-trivial, "
           f"{proofs['discharged']}/{proofs['obligations']} obligations, {len(diffs)} diffs, {len(fails)} failures, "
           f"{len(timeouts)} timeouts, {len(infra)} infra, {ev['wall_s']} s -> exit {rc}")
